@@ -3,6 +3,7 @@
 -/
 import Bita.Model.Cli
 import Bita.Proofs.CloneSound
+import Bita.Proofs.CliFsLemmas
 
 namespace Bita.Proofs
 open Bita Bita.Gen
@@ -26,13 +27,180 @@ def FactsAsExpected : Prop :=
   cloneSeedOpen = "File::open" ∧ cloneArchiveOpen = "File::open" ∧ cloneOtherFsCalls = [] ∧
   pinComparesFullBytes = true
 
+/-- The flags `clone_cmd` opens the output with. -/
+def cloneFlags (o : CliFlags) : OpenFlags :=
+  { read := o.verifyOutput || o.seedOutput, write := true, create := o.force || o.seedOutput,
+    createNew := !o.force && !o.seedOutput, truncate := false }
+
+def nodeIsDev (n : Node) : Bool := match n with | .blockdev _ => true | .regular _ => false
+
+/-- `Cli.clone` from the point where the output is open and holds `onode`. -/
+def cliCloneRun (H : Bytes → Bytes) (decomp : Nat → Bytes → Nat → Option Bytes) (c : CloneCmd)
+    (fs1 : Fs) (archive : Bytes) (a : Archive) (ops1 : List FsOp) (onode : Node) : CmdOut :=
+  let isDev := nodeIsDev onode
+  let seeds := c.seedPaths.filterMap fun p => (fs1.get p).map (·.data)
+  if c.seedPaths.any (fun p => (fs1.get p).isNone) && !(isDev && decide (onode.data.length < a.sourceTotalSize)) then
+    ⟨false, fs1, ops1 ++ [FsOp.write c.output]⟩
+  else
+  let r := Clone.run H decomp [] (honestReadAt archive) (honestReadChunks archive)
+    { seedOutput := c.flags.seedOutput, verifyOutput := c.flags.verifyOutput, headerPin := c.pin, blockDev := isDev }
+    onode.data seeds
+  let wrote := r.log.any fun op => match op with | .write .. => true | .read .. => false
+  let resized := decide (r.result = .ok) && !isDev
+  let ops2 := ops1 ++ (c.seedPaths.map FsOp.openRead) ++
+    (if wrote then [FsOp.write c.output] else []) ++ (if resized then [FsOp.truncate c.output] else [])
+  let node := if isDev then Node.blockdev r.output else Node.regular r.output
+  ⟨decide (r.result = .ok), fs1.set c.output node, ops2⟩
+
+/-- `Cli.clone` from the point where the archive is open and the pin passed. -/
+def cliCloneOpen (H : Bytes → Bytes) (decomp : Nat → Bytes → Nat → Option Bytes) (c : CloneCmd)
+    (fs : Fs) (archive : Bytes) (a : Archive) : CmdOut :=
+  let ops1 := [FsOp.openRead c.archivePath] ++ [FsOp.openWrite c.output (cloneFlags c.flags).describe]
+  match fs.openOut c.output (cloneFlags c.flags) with
+  | none => ⟨false, fs, ops1⟩
+  | some fs1 =>
+    match fs1.get c.output with
+    | none => ⟨false, fs1, ops1⟩
+    | some onode => cliCloneRun H decomp c fs1 archive a ops1 onode
+
+def cliPinBad (c : CloneCmd) (a : Archive) : Bool :=
+  match c.pin with | some pin => decide (pin ≠ a.headerChecksum) | none => false
+
+/-- `Cli.clone` with its stages named. -/
+theorem cli_clone_eq (H : Bytes → Bytes) (decomp : Nat → Bytes → Nat → Option Bytes) (c : CloneCmd) (fs : Fs) :
+    Cli.clone H decomp c fs =
+      match fs.get c.archivePath with
+      | none => ⟨false, fs, []⟩
+      | some an =>
+        match tryInit H [] (honestReadAt an.data) with
+        | .ok a =>
+          if cliPinBad c a then ⟨false, fs, [FsOp.openRead c.archivePath]⟩
+          else cliCloneOpen H decomp c fs an.data a
+        | _ => ⟨false, fs, [FsOp.openRead c.archivePath]⟩ := by
+  unfold Cli.clone
+  rfl
+
+/-- A block device smaller than the source: the run stops before touching the output. -/
+theorem run_small_device (H : Bytes → Bytes) (decomp : Nat → Bytes → Nat → Option Bytes) (features : List Nat)
+    (readAt : Nat → Nat → Option Bytes) (readChunks : List (Nat × Nat) → List (Option Bytes))
+    (opts : CloneOpts) (prior : Bytes) (seeds : List Bytes) (a : Archive)
+    (hinit : tryInit H features readAt = .ok a) (hdev : opts.blockDev = true)
+    (hsmall : prior.length < a.sourceTotalSize) :
+    (Clone.run H decomp features readAt readChunks opts prior seeds).result ≠ .ok ∧
+      (Clone.run H decomp features readAt readChunks opts prior seeds).output = prior := by
+  rw [run_eq H decomp features readAt readChunks opts prior seeds a hinit]
+  split
+  · simp
+  · simp
+  · split
+    · simp
+    · rw [if_pos ⟨hdev, hsmall⟩]
+      simp
+
+theorem cliCloneRun_small (H : Bytes → Bytes) (decomp : Nat → Bytes → Nat → Option Bytes) (c : CloneCmd)
+    (fs1 : Fs) (hfs : (fs1.map (·.1)).Nodup) (archive : Bytes) (a : Archive) (ops1 : List FsOp) (dev : Bytes)
+    (hinit : tryInit H [] (honestReadAt archive) = .ok a)
+    (hget : fs1.get c.output = some (.blockdev dev)) (hsmall : dev.length < a.sourceTotalSize) :
+    (cliCloneRun H decomp c fs1 archive a ops1 (.blockdev dev)).ok = false ∧
+      (cliCloneRun H decomp c fs1 archive a ops1 (.blockdev dev)).fs = fs1 := by
+  unfold cliCloneRun
+  have hcond : (c.seedPaths.any (fun p => (fs1.get p).isNone) &&
+      !(nodeIsDev (.blockdev dev) && decide ((Node.blockdev dev).data.length < a.sourceTotalSize))) = false := by
+    simp [nodeIsDev, Node.data, hsmall]
+  simp only [hcond]
+  obtain ⟨hr, ho⟩ := run_small_device H decomp [] (honestReadAt archive) (honestReadChunks archive)
+    { seedOutput := c.flags.seedOutput, verifyOutput := c.flags.verifyOutput, headerPin := c.pin,
+      blockDev := nodeIsDev (.blockdev dev) } (Node.blockdev dev).data
+    (c.seedPaths.filterMap fun p => (fs1.get p).map (·.data)) a hinit rfl hsmall
+  refine ⟨by simpa using hr, ?_⟩
+  simp only [Bool.false_eq_true, if_false]
+  rw [ho]
+  exact fs_set_self fs1 hfs c.output _ hget
+
+
+theorem cliCloneRun_ops (H : Bytes → Bytes) (decomp : Nat → Bytes → Nat → Option Bytes) (c : CloneCmd)
+    (fs1 : Fs) (archive : Bytes) (a : Archive) (ops1 : List FsOp) (onode : Node) :
+    ∀ op ∈ (cliCloneRun H decomp c fs1 archive a ops1 onode).ops,
+      op ∈ ops1 ∨ (∃ p, op = FsOp.openRead p) ∨ op = FsOp.write c.output ∨ op = FsOp.truncate c.output := by
+  intro op hop
+  unfold cliCloneRun at hop
+  dsimp only at hop
+  split at hop
+  · simp only [List.mem_append, List.mem_singleton] at hop
+    rcases hop with h | h
+    · exact .inl h
+    · exact .inr (.inr (.inl h))
+  · simp only [List.mem_append, List.mem_map] at hop
+    rcases hop with ((h | ⟨p, _, h⟩) | h) | h
+    · exact .inl h
+    · exact .inr (.inl ⟨p, h.symm⟩)
+    · split at h
+      · exact .inr (.inr (.inl (List.mem_singleton.mp h)))
+      · simp at h
+    · split at h
+      · exact .inr (.inr (.inr (List.mem_singleton.mp h)))
+      · simp at h
+
+theorem cliCloneRun_fs (H : Bytes → Bytes) (decomp : Nat → Bytes → Nat → Option Bytes) (c : CloneCmd)
+    (fs1 : Fs) (archive : Bytes) (a : Archive) (ops1 : List FsOp) (onode : Node) (p : String)
+    (hp : p ≠ c.output) :
+    (cliCloneRun H decomp c fs1 archive a ops1 onode).fs.get p = fs1.get p := by
+  unfold cliCloneRun
+  dsimp only
+  split
+  · rfl
+  · exact fs_set_get_ne fs1 c.output p _ hp
+
+theorem cliCloneOpen_ops (H : Bytes → Bytes) (decomp : Nat → Bytes → Nat → Option Bytes) (c : CloneCmd)
+    (fs : Fs) (archive : Bytes) (a : Archive) :
+    ∀ op ∈ (cliCloneOpen H decomp c fs archive a).ops,
+      (FsOp.isReadOnly op = true ∨ FsOp.path op = c.output) ∧ (∀ p, op ≠ FsOp.unlink p) := by
+  have hops1 : ∀ op ∈ [FsOp.openRead c.archivePath] ++ [FsOp.openWrite c.output (cloneFlags c.flags).describe],
+      (FsOp.isReadOnly op = true ∨ FsOp.path op = c.output) ∧ (∀ p, op ≠ FsOp.unlink p) := by
+    intro op hop
+    simp only [List.mem_append, List.mem_singleton] at hop
+    rcases hop with h | h <;> subst h <;> simp [FsOp.isReadOnly, FsOp.path]
+  intro op hop
+  unfold cliCloneOpen at hop
+  dsimp only at hop
+  split at hop
+  · exact hops1 op hop
+  · split at hop
+    · exact hops1 op hop
+    · rcases cliCloneRun_ops H decomp c _ archive a _ _ op hop with h | ⟨p, h⟩ | h | h
+      · exact hops1 op h
+      · subst h; simp [FsOp.isReadOnly]
+      · subst h; simp [FsOp.path]
+      · subst h; simp [FsOp.path]
+
+theorem cliCloneOpen_fs (H : Bytes → Bytes) (decomp : Nat → Bytes → Nat → Option Bytes) (c : CloneCmd)
+    (fs : Fs) (archive : Bytes) (a : Archive) (p : String) (hp : p ≠ c.output) :
+    (cliCloneOpen H decomp c fs archive a).fs.get p = fs.get p := by
+  unfold cliCloneOpen
+  dsimp only
+  split
+  · rfl
+  · rename_i fs1 ho
+    have h1 := fs_openOut_get_ne fs fs1 c.output p _ ho hp
+    split
+    · exact h1
+    · rw [cliCloneRun_fs H decomp c fs1 archive a _ _ p hp, h1]
+
 /-- C14 (a): the archive does not open (not an archive, corrupt header, invalid dictionary). -/
 theorem clone_refused_archive (H : Bytes → Bytes) (decomp : Nat → Bytes → Nat → Option Bytes)
     (c : CloneCmd) (fs : Fs) (an : Node) (ha : fs.get c.archivePath = some an)
     (hbad : ∀ a, tryInit H [] (honestReadAt an.data) ≠ .ok a) :
     let r := Cli.clone H decomp c fs
     r.ok = false ∧ r.fs = fs ∧ ∀ op ∈ r.ops, FsOp.isReadOnly op = true := by
-  sorry
+  dsimp only
+  rw [cli_clone_eq]
+  simp only [ha]
+  cases hok : tryInit H [] (honestReadAt an.data) with
+  | ok a => exact absurd hok (hbad a)
+  | invalid w => simp [FsOp.isReadOnly]
+  | readerErr => simp [FsOp.isReadOnly]
+  | panic s => simp [FsOp.isReadOnly]
+  | abort s => simp [FsOp.isReadOnly]
 
 /-- C14 (b): the expected header checksum does not equal the archive's. -/
 theorem clone_refused_pin (H : Bytes → Bytes) (decomp : Nat → Bytes → Nat → Option Bytes)
@@ -41,7 +209,14 @@ theorem clone_refused_pin (H : Bytes → Bytes) (decomp : Nat → Bytes → Nat 
     (hne : pin ≠ a.headerChecksum) :
     let r := Cli.clone H decomp c fs
     r.ok = false ∧ r.fs = fs ∧ ∀ op ∈ r.ops, FsOp.isReadOnly op = true := by
-  sorry
+  dsimp only
+  rw [cli_clone_eq]
+  have hbad : cliPinBad c a = true := by
+    unfold cliPinBad
+    rw [hp]
+    simpa using hne
+  simp only [ha, hok, hbad, if_true]
+  simp [FsOp.isReadOnly]
 
 /-- C14 (c): the output exists and neither overwrite nor in-place was requested. -/
 theorem clone_refused_exists (H : Bytes → Bytes) (decomp : Nat → Bytes → Nat → Option Bytes)
@@ -49,7 +224,26 @@ theorem clone_refused_exists (H : Bytes → Bytes) (decomp : Nat → Bytes → N
     (hf : c.flags.force = false) (hs : c.flags.seedOutput = false) :
     let r := Cli.clone H decomp c fs
     r.ok = false ∧ r.fs = fs := by
-  sorry
+  dsimp only
+  rw [cli_clone_eq]
+  cases ha : fs.get c.archivePath with
+  | none => exact ⟨rfl, rfl⟩
+  | some an =>
+    dsimp only
+    cases hok : tryInit H [] (honestReadAt an.data) with
+    | ok a =>
+      dsimp only
+      split
+      · exact ⟨rfl, rfl⟩
+      · have hopen : fs.openOut c.output (cloneFlags c.flags) = none := by
+          unfold Fs.openOut cloneFlags
+          simp [hout, hf, hs]
+        unfold cliCloneOpen
+        simp [hopen]
+    | invalid w => exact ⟨rfl, rfl⟩
+    | readerErr => exact ⟨rfl, rfl⟩
+    | panic s => exact ⟨rfl, rfl⟩
+    | abort s => exact ⟨rfl, rfl⟩
 
 /-- C14 (d): the output is a block device smaller than the source. -/
 theorem clone_refused_small_device (H : Bytes → Bytes) (decomp : Nat → Bytes → Nat → Option Bytes)
@@ -58,14 +252,36 @@ theorem clone_refused_small_device (H : Bytes → Bytes) (decomp : Nat → Bytes
     (dev : Bytes) (hout : fs.get c.output = some (.blockdev dev)) (hsmall : dev.length < a.sourceTotalSize) :
     let r := Cli.clone H decomp c fs
     r.ok = false ∧ r.fs = fs := by
-  sorry
+  dsimp only
+  rw [cli_clone_eq]
+  simp only [ha, hok]
+  split
+  · exact ⟨rfl, rfl⟩
+  · unfold cliCloneOpen
+    unfold Fs.openOut
+    simp only [hout]
+    cases hcn : (cloneFlags c.flags).createNew with
+    | true => exact ⟨rfl, rfl⟩
+    | false =>
+      have ht : (cloneFlags c.flags).truncate = false := rfl
+      simp only [ht, Bool.false_eq_true, if_false, hout]
+      exact cliCloneRun_small H decomp c fs hfs an.data a _ dev hok hout hsmall
+
 
 /-- C14 (e): compress into an existing output without `--force-create`. -/
 theorem compress_refused_exists (H : Bytes → Bytes) (comp : Bytes → Bytes) (c : CompressCmd) (fs : Fs)
     (n : Node) (hout : fs.get c.output = some n) (hf : c.flags.force = false) :
     let r := Cli.compress H comp c fs
     r.ok = false ∧ r.fs = fs := by
-  sorry
+  dsimp only
+  unfold Cli.compress
+  rw [compressOpen_flags, tempOpen_flags]
+  dsimp only
+  have hopen : fs.openOut c.output (compressFlags c.flags) = none := by
+    unfold Fs.openOut compressFlags
+    simp [hout, hf]
+  rw [hopen]
+  exact ⟨rfl, rfl⟩
 
 /-- C16 T1: in every mode, every file-system operation of a clone is a read-only open (archive,
 seeds) or concerns the output path; nothing is removed. -/
@@ -73,24 +289,91 @@ theorem clone_ops_confined (H : Bytes → Bytes) (decomp : Nat → Bytes → Nat
     (c : CloneCmd) (fs : Fs) :
     ∀ op ∈ (Cli.clone H decomp c fs).ops,
       (FsOp.isReadOnly op = true ∨ FsOp.path op = c.output) ∧ (∀ p, op ≠ FsOp.unlink p) := by
-  sorry
+  have hops0 : ∀ op ∈ [FsOp.openRead c.archivePath],
+      (FsOp.isReadOnly op = true ∨ FsOp.path op = c.output) ∧ (∀ p, op ≠ FsOp.unlink p) := by
+    intro op hop
+    rw [List.mem_singleton] at hop
+    subst hop
+    simp [FsOp.isReadOnly]
+  rw [cli_clone_eq]
+  cases ha : fs.get c.archivePath with
+  | none => simp
+  | some an =>
+    dsimp only
+    cases hok : tryInit H [] (honestReadAt an.data) with
+    | ok a =>
+      dsimp only
+      split
+      · exact hops0
+      · exact cliCloneOpen_ops H decomp c fs an.data a
+    | invalid w => exact hops0
+    | readerErr => exact hops0
+    | panic s => exact hops0
+    | abort s => exact hops0
 
 /-- ... and no path other than the output changes. -/
 theorem clone_fs_confined (H : Bytes → Bytes) (decomp : Nat → Bytes → Nat → Option Bytes)
     (c : CloneCmd) (fs : Fs) (p : String) (hp : p ≠ c.output) :
     (Cli.clone H decomp c fs).fs.get p = fs.get p := by
-  sorry
+  rw [cli_clone_eq]
+  cases ha : fs.get c.archivePath with
+  | none => rfl
+  | some an =>
+    dsimp only
+    cases hok : tryInit H [] (honestReadAt an.data) with
+    | ok a =>
+      dsimp only
+      split
+      · rfl
+      · exact cliCloneOpen_fs H decomp c fs an.data a p hp
+    | invalid w => rfl
+    | readerErr => rfl
+    | panic s => rfl
+    | abort s => rfl
 
 /-- C16 T2: a successful compress ends in the initial file system plus exactly the archive. -/
 theorem compress_leaves_only_archive (H : Bytes → Bytes) (comp : Bytes → Bytes) (c : CompressCmd) (fs : Fs)
-    (htmp : fs.get (tempPathOf c.output) = none)
-    (hdistinct : tempPathOf c.output ≠ c.output ∧ c.input ≠ c.output ∧ c.input ≠ tempPathOf c.output)
+    (htmp : fs.get (c.temp) = none)
+    (hdistinct : c.temp ≠ c.output ∧ c.input ≠ c.output ∧ c.input ≠ c.temp)
     (hflush : cliTempFlushedBeforeReturn = true) :
     let r := Cli.compress H comp c fs
     r.ok = true →
       (∀ p, p ≠ c.output → r.fs.get p = fs.get p) ∧
       (∃ src, (fs.get c.input).map (·.data) = some src ∧
         r.fs.get c.output = some (.regular (createArchive H "cli" comp c.opts src))) := by
-  sorry
+  obtain ⟨hto, hio, _⟩ := hdistinct
+  dsimp only
+  unfold Cli.compress
+  rw [compressOpen_flags, tempOpen_flags]
+  dsimp only
+  cases ho : fs.openOut c.output (compressFlags c.flags) with
+  | none => simp
+  | some fs1 =>
+    dsimp only
+    cases hin : fs1.get c.input with
+    | none => simp
+    | some inode =>
+      dsimp only
+      cases ht : fs1.openOut (c.temp) tempFlags with
+      | none => simp
+      | some fs2 =>
+        dsimp only
+        intro _
+        generalize hd : dictionaryOf H "cli" comp c.opts inode.data = ds
+        obtain ⟨dict, stored⟩ := ds
+        dsimp only
+        simp only [hflush, if_true]
+        refine ⟨fun p hp => ?_, inode.data, ?_, ?_⟩
+        · by_cases hpt : p = c.temp
+          · subst hpt
+            rw [fs_remove_get_same, htmp]
+          · rw [fs_remove_get_ne _ _ _ hpt, fs_set_get_ne _ _ _ _ hp, fs_set_get_ne _ _ _ _ hpt,
+              fs_openOut_get_ne fs1 fs2 _ p _ ht hpt, fs_openOut_get_ne fs fs1 _ p _ ho hp]
+        · rw [← fs_openOut_get_ne fs fs1 _ c.input _ ho hio, hin]
+          rfl
+        · rw [fs_remove_get_ne _ _ _ (Ne.symm hto), fs_set_get_same, fs_set_get_same]
+          unfold createArchive
+          rw [hd]
+          rfl
 
 end Bita.Proofs
